@@ -214,6 +214,23 @@ def _r2(w: World, rep: Report, eff: Effects):
     for must in ('_plugins', '_contracts', '_contract_interfaces', 'opcode_aliases'):
         if must not in seen_regs:
             raise AnalysisError(f'no writer found for registry {must}: inventory incomplete')
+    # a registry handed out un-copied becomes writable through the object that holds it
+    for fi in w.repo.all_funcs(['functions', 'parsing', 'tools', 'classes']):
+        if fi.name.startswith(API_PREFIXES) or fi.name in ('generate_docs', '_get_op_aliases'):
+            continue
+        for n in ast.walk(fi.node):
+            leak = None
+            if isinstance(n, ast.Assign) and isinstance(n.value, ast.Name) and n.value.id in REGISTRIES and \
+                    any(isinstance(t, (ast.Attribute, ast.Subscript)) for t in n.targets):
+                leak = f'`{ast.unparse(n.targets[0])} = {n.value.id}`'
+            if isinstance(n, ast.Call) and dotted(n.func) in ('Tape', 'Stack'):
+                for a in list(n.args) + [k.value for k in n.keywords]:
+                    if isinstance(a, ast.Name) and a.id in REGISTRIES:
+                        leak = f'`{a.id}` passed to {dotted(n.func)}(...)'
+            if leak:
+                rep.check('C19.R2', f'{fi.key}|registry-aliased', False, line=n.lineno, file=w.repo.rel(fi.module.path),
+                          why=f'{leak}: the process-global registry itself (not a copy) is attached to a run object, so '
+                          f'anything a run stores through that object changes later runs')
     # reachability from the entry points
     for mod, name in ENTRY_POINTS:
         fi = w.repo.func(mod, name)
